@@ -41,11 +41,29 @@ def _user_hook(module, inputs, output):
     return None
 
 
+class LazyStem(torch.nn.Module):
+    """builds its convolution in its first forward pass (the model gains a sub-module during whatever call comes first)"""
+    def __init__(self, seed):
+        super().__init__()
+        self.seed = seed
+        self.conv = None
+
+    def forward(self, X):
+        if self.conv is None:
+            g = torch.Generator().manual_seed(77 + self.seed)
+            conv = torch.nn.Conv1d(4, 4, 1).double()
+            with torch.no_grad():
+                conv.weight.copy_(torch.eye(4).reshape(4, 4, 1).double() + torch.randint(-1, 2, (4, 4, 1), generator=g).double() / 8.0)
+                conv.bias.zero_()
+            self.conv = conv
+        return self.conv(X)
+
+
 class Shared(torch.nn.Module):
     def __init__(self, seed):
         super().__init__()
         g = torch.Generator().manual_seed(3 + seed)
-        if VARIANT in ("plain", "bn_train", "lazy_cache", "legacy_hook"):
+        if VARIANT in ("plain", "bn_train", "lazy_cache", "legacy_hook", "lazy_module"):
             self.net = torch.nn.Sequential(
                 torch.nn.Conv1d(4, 3, 3, padding=1), torch.nn.BatchNorm1d(3), torch.nn.ReLU(), torch.nn.Dropout(0.5), torch.nn.MaxPool1d(2),
                 torch.nn.Flatten(), torch.nn.Linear(3 * (L // 2), 4), torch.nn.ReLU(), torch.nn.Linear(4, 2)).double()
@@ -76,6 +94,8 @@ class Shared(torch.nn.Module):
         act = [m for m in self.net.modules() if isinstance(m, torch.nn.ReLU)][0]
         act.register_forward_hook(_user_hook)
         self._scale = None
+        if VARIANT == "lazy_module":
+            self.net = torch.nn.Sequential(LazyStem(seed), *list(self.net.children()))
         if VARIANT == "legacy_hook":
             # an activation on which the caller once had an old-style backward hook and removed it again: torch then refuses a full backward
             # hook on that module, so every deep_lift_shap call fails while registering - and must leave nothing behind
@@ -253,6 +273,9 @@ def canon(model, seed):
              len(getattr(m, "_forward_hooks_with_kwargs", {})))
         if any(h):
             hooks.append((n, h))
+    if VARIANT == "lazy_module" and model.net[0].conv is None:
+        with torch.no_grad():
+            model.net[0](data(seed + 100)[0][:1])          # built here (deterministically) if no call has built it yet
     sd = hashlib.sha256()
     for k, v in model.state_dict().items():
         sd.update(k.encode())
@@ -304,7 +327,8 @@ def shards(tier, seed):
             dict(name="crash_points_and_bfs/shared_activation_object", kind="bfs", variant="shared_act", weight=100),
             dict(name="crash_points_and_bfs/batchnorm_in_training_mode", kind="bfs", variant="bn_train", weight=100),
             dict(name="crash_points_and_bfs/lazily_built_state", kind="bfs", variant="lazy_cache", weight=100),
-            dict(name="crash_points_and_bfs/legacy_backward_hook_removed", kind="bfs", variant="legacy_hook", weight=100)] + \
+            dict(name="crash_points_and_bfs/legacy_backward_hook_removed", kind="bfs", variant="legacy_hook", weight=100),
+            dict(name="crash_points_and_bfs/submodule_built_in_first_forward", kind="bfs", variant="lazy_module", weight=100)] + \
            [dict(name="differential/%d" % p, kind="diff", part=p, parts=12, variant="plain", weight=300) for p in range(12)] + \
            [dict(name="differential_shared_act/%d" % p, kind="diff", part=p, parts=3, variant="shared_act", weight=300) for p in range(3)]
 
